@@ -983,6 +983,13 @@ def emit_fn(out, u, fs, rules_used):
                     ins.append((off(body[kc]) + 1, "after", block))
                 else:
                     ins.append((off(body[block_end_tok(body, loops[kk][1], unit_block=True)]), "before", block))
+                    # the end of the loop body is also reached by `continue` (of this loop, not of a nested one)
+                    kopen = loops[kk][1]; kclose = match_close(body, kopen)
+                    nested = [(lb2, match_close(body, lb2)) for (kw2, lb2) in loops if kopen < lb2 < kclose]
+                    for kx in range(kopen + 1, kclose):
+                        tx = body[kx]
+                        if tx.kind == "ident" and tx.text == "continue" and not any(a < kx < b for a, b in nested):
+                            ins.append((off(tx), "before", block))
             elif where.startswith("arm") or where.startswith("block"):
                 m = re.match(r"(arm|block)\s+/(.*?)/(?:\s*#(\d+))?\s+(\w+)$", where, re.S)
                 kind_, rx, nth, pos_ = m.group(1), m.group(2), int(m.group(3) or 1), m.group(4)
@@ -1081,6 +1088,8 @@ def emit_fn(out, u, fs, rules_used):
     if fs.closures:
         cl = find_closures(body)
         for kk, hdr in fs.closures.items():
+            if len(cl) == 0:
+                continue        # the function was rewritten without closures: nothing to annotate
             if kk >= len(cl):
                 raise LostAnchor("fn %s: closure %d not found" % (fs.name, kk))
             a, b = cl[kk]
@@ -1125,7 +1134,7 @@ def emit_fn(out, u, fs, rules_used):
                 ins.append((off(body[e]), "replace", (off(body[e]), " }")))
             rules_used.add("R5")
     ncl = fs.opts.get("closures")
-    if ncl is not None and int(ncl) != len(find_closures(body)):
+    if ncl is not None and len(find_closures(body)) != 0 and int(ncl) != len(find_closures(body)):
         raise LostAnchor("fn %s: expected %s closures, found %d" % (fs.name, ncl, len(find_closures(body))))
     # apply insertions: walk through btext by char offset, emitting lines
     ins.sort(key=lambda x: x[0])
